@@ -64,6 +64,38 @@ theorem shapeOf_toNested {α} (shape : List Nat) (h : ∀ d ∈ shape, d ≠ 0) 
     simp only [List.map_cons, shapeOf, List.length_map, List.length_range]
     rw [ih hds]
 
+/-- row-major flattening of the nested list (what `json.dump` writes, element by element) -/
+def flat {α} : Nested α → List α
+  | .leaf a => [a]
+  | .node cs => (cs.map flat).flatten
+
+/-- all multi-indices of a shape in row-major (C) order -/
+def indices : List Nat → List (List Nat)
+  | [] => [[]]
+  | d :: ds => (List.range d).flatMap fun i => (indices ds).map (i :: ·)
+
+/-- the nested list holds exactly the elements of the array in row-major order -/
+theorem flat_toNested {α} (shape : List Nat) (get : List Nat → α) :
+    flat (toNested shape get) = (indices shape).map get := by
+  induction shape generalizing get with
+  | nil => simp [toNested, flat, indices]
+  | cons d ds ih =>
+    simp only [toNested, flat, indices, List.map_map, List.map_flatMap]
+    rw [List.flatMap_def]
+    congr 1
+    apply List.map_congr_left
+    intro i _
+    simp only [Function.comp_apply, ih]
+    rfl
+
+/-- `Layout.load_ga_file`: the diagonal of the stored metric must equal the layout's signature -/
+def loadCheck (metricDiag sig : List Int) : Except String Unit :=
+  if metricDiag = sig then .ok () else .error "ValueError"
+
+theorem loadCheck_mismatch (m sig : List Int) (h : m ≠ sig) : loadCheck m sig = .error "ValueError" := by
+  simp [loadCheck, h]
+theorem loadCheck_match (sig : List Int) : loadCheck sig sig = .ok () := by simp [loadCheck]
+
 /-- the excluded case is real: a `(0, 8)` array comes back with shape `(0,)` -/
 theorem json_empty_counterexample {α} (get : List Nat → α) :
     shapeOf (toNested [0, 8] get) = [0] := by
